@@ -19,25 +19,6 @@ def c06(case, f):
         b = sqlfeat.bare(t)
         if b in feat["lateral_view_aliases"]:
             return "KF-11"
-        if b in feat["rename_old"]:
-            return "KF-12"
-        if b in feat["nested_group_first_aliases"]:
-            return "KF-36"
-        if b in feat["mixed_comma_join_names"]:
-            return "KF-01"
-        if b in feat["select_subquery_tables"]:
-            return "KF-02"
-        if b in feat["having_subquery_tables"]:
-            return "KF-03"
-    if inv == "C06.path_end_not_written" and t:
-        feat = _feat(case)
-        if sqlfeat.bare(t) in feat["rename_old"]:
-            return "KF-12"
-    if inv == "C06.column_owner_mismatch":
-        feat = _feat(case)
-        col_table = f["detail"].rsplit(".", 1)[0]
-        if sqlfeat.bare(col_table) in feat["rename_old"] and all(sqlfeat.bare(o) in feat["rename_new"] for o in f.get("owners", [])):
-            return "KF-12"
     return None
 
 
